@@ -1,7 +1,7 @@
 from common import *
 from bundlelib import *
 from sxglib import oracle_tables
-import re
+import re, hashlib
 
 THEOREMS = ['C06.authority_invariant', 'C06.authority_points_to_own_leaf', 'C06.honest_verifies', 'C06.honest_verifies_all', 'C06.honest_verifies_after_roundtrip', 'C06.verify_sound', 'C06.subset_checked_before_trusted', 'C06.signedMessage_injective']
 TRUSTED = ['ECDSA and SHA-256 are parameters; every signature verdict the model uses comes from the independent strict-DER oracle (oracle.sig) on the message the MODEL computes, so a signer/verifier that builds another message disagrees',
@@ -10,7 +10,9 @@ ASSUMPTIONS = ['a second signer covering an exchange that already carries a Dige
                'the signing loop of cmd/sign-bundle `addSignature` (package main) is replicated in the harness from library calls']
 RULE = ('staged: bundles (b1/b2) x certificates/hosts x P-256/P-384 x record sizes x sequences of 1..3 signers (real ECDSA signing by the harness), model recomputes the signed bundle from the signature bytes (bsig.signstep), '
         'verify (NewVerifier + VerifyExchange for every exchange) before and after a bundle write/read cycle at t in {date-1, date, mid, expires, expires+1}, and mutants: body / status / header edits of covered exchanges, '
-        'sig bytes, signed-subset bytes, authority index, swapped/dropped authorities, lifetime > 7 days; plus SignedSubset.Encode and generateSignedMessage ops; non-trivial = compared op on a signed bundle')
+        'sig bytes, signed-subset bytes, authority index, swapped/dropped authorities, lifetime > 7 days; plus SignedSubset.Encode and generateSignedMessage ops; non-trivial = compared op on a signed bundle; '
+        'near-miss families: a covered response that already has a Digest field (21 kinds of value: other algorithms, lists, empty, look-alikes of the MI name, the right MI digest) x position in the bundle; '
+        'signatures made at the wall-clock time verified at the zero time.Time and its neighbours, the epoch, and around date / expires, before and after write/read')
 EXHAUSTIVE = {}
 
 agree = Base.agree; nontrivial = Base.nontrivial; signature = Base.signature; explain = Base.explain
@@ -33,6 +35,80 @@ def verify_stage(ctx, items):
     need_lists = [[q for q in (n or '').split(' ') if ':' in q] for n in needs]
     tabs = oracle_tables(ctx, need_lists, None)
     return ctx.both([f'bsig.verify {b} {t[0]} {t[1]} {u} {c} {s}' for (b, t), (u, c, s) in zip(items, tabs)])
+
+
+def sign_compare(ctx, jobs, chain, vurl):
+    """one signer over each job's bundle: bsig.sign on the real code, bsig.signstep (fed with the signature bytes) on the model, compared.
+    job: dict(b, key, rs, long, date, nsec, dur); returns the signed bundle spec (or None) per job"""
+    ops = [f'bsig.sign {j["b"]} {j["rs"]} {chain(j["key"], j["long"])} {j["key"]["key"]} {hexs(vurl)} {j["date"]}:{j["nsec"]} {j["dur"]}' for j in jobs]
+    res = ctx.go(ops)
+    cq = []
+    for j in jobs:
+        j['urls'] = [e.split('~')[0] for e in j['b'].split(' ')[4].split(',') if e != '.']
+        cq += [(j['key']['cert'], u) for u in j['urls']]
+    cq = list(dict.fromkeys(cq))
+    cmap = dict(zip(cq, ctx.go([f'oracle.cansign {c} {u}' for c, u in cq])))
+    mops, gout, out = [], [], []
+    for j, r in zip(jobs, res):
+        cs = ','.join(f'{u}:{cmap[(j["key"]["cert"], u)]}' for u in j['urls']) or '.'
+        ok = bool(r and r.startswith('ok '))
+        sig = r[3:].split(' ')[3].split('/')[1].split('+')[-1].split(':')[1] if ok else '-'
+        mops.append(f'bsig.signstep {j["b"]} {j["rs"]} {chain(j["key"], j["long"])} {hexs(vurl)} {j["date"]} {j["date"] + j["dur"]} {cs} {sig}')
+        gout.append(('ok ' + r[3:]) if ok else 'err')
+        out.append(r[3:] if ok else None)
+    for op, g, m in zip(mops, gout, ctx.model(mops)):
+        ctx.records.append((op, g, m))
+    return out
+
+
+def r10_stage(ctx, rng, chain, K, vurl):
+    import time as _time, base64
+    T = [(b'Content-Type', [b'text/plain'])]
+    # (1) a covered response that already carries a Digest header field of ANY kind (another algorithm, several, empty, look-alikes of the
+    # MI one, the right MI digest): the signer refuses (both sides: err) -- signing it would either stack a second value behind the
+    # first (the verifier reads the first) or vouch for a digest that is not the one of the stored payload. Controls: the field on an
+    # exchange the certificate does not cover (left alone, bundle signed), and no such field at all.
+    body = b'<html>digest family</html>'
+    s256 = b'sha-256=' + base64.b64encode(hashlib.sha256(body).digest())
+    mi = b'mi-sha256-03=' + base64.b64encode(hashlib.sha256(body + b'\x00').digest())       # the MI digest of a single-record body
+    fam = [[s256], [b'SHA-256=' + s256[8:]], [b'md5=1B2M2Y8AsgTpgAmY7PhCfg=='], [s256 + b',sha-512=AAAA'], [s256, b'sha-512=AAAA'], [b''], [b' '], [b'', b''], [b'mi-sha256-03'], [b'MI-SHA256-03=' + mi[13:]],
+           [b'mi-sha256-draft2=' + mi[13:]], [b'xmi-sha256-03=' + mi[13:]], [s256, mi], [s256 + b',' + mi], [s256 + b', ' + mi], [b' ' + mi], [mi], [mi, s256], [b'mi-sha256-03='], [b'=', b'x'], [b'id=1']]
+    jobs = []
+    for n_, dv in enumerate(fam):
+        for ver in ('b1', 'b2'):
+            if n_ >= 6 and (n_ + (ver == 'b1')) % 2: continue          # the first six under both versions, the rest alternating
+            exs = [exch(b'https://example.com/', 200, T, b'plain'), exch(b'https://example.com/digest.html', 200, T + [(b'Digest', dv)], body), exch(b'https://other.example/x', 200, T, b'uncovered')]
+            if n_ % 3 == 1: exs = exs[1:]            # the exchange with the field is the first one / the only covered one
+            if n_ % 3 == 2: exs = [exs[0], exs[2], exs[1]]      # ... the last one (everything before it has been processed already)
+            jobs.append(dict(b=bundle(ver, unhex(exs[0].split('~')[0]) if ver == 'b1' else None, None, None, exs), key=K['A'] if n_ % 4 else K['A2'], rs=[16, 4096, 1][n_ % 3], long=False, date=1517418800, nsec=0, dur=3600))
+    for ver in ('b1', 'b2'):
+        for dv in (fam[0], fam[16], fam[5]):
+            exs = [exch(b'https://example.com/', 200, T, b'plain'), exch(b'https://other.example/digest.html', 200, T + [(b'Digest', dv)], body)]
+            jobs.append(dict(b=bundle(ver, b'https://example.com/' if ver == 'b1' else None, None, None, exs), key=K['A'], rs=16, long=False, date=1517418800, nsec=0, dur=3600))
+    signed = [(b, j) for b, j in zip(sign_compare(ctx, jobs, chain, vurl), jobs) if b]
+    verify_stage(ctx, [(b, (j['date'] + 5, 0)) for b, j in signed])
+    # (2) signatures made just now (the window contains this machine's wall clock) verified at instants that have nothing to do with the
+    # wall clock: the zero time.Time (year 1; what an unset field of a caller holds) and its neighbours, the Unix epoch, one second
+    # outside either end, the ends themselves. A verifier that takes "zero" (or any far-away value) for "now" accepts where it must
+    # answer "not yet valid". With the 2018 dates of every other family such a default is invisible: "now" is outside the window too.
+    now = int(_time.time())
+    jobs = []
+    for ver in ('b1', 'b2'):
+        for key, dur, back in ((K['A'], 3600, 60), (K['A2'], 604800, 3600), (K['B'], 86400, 1)):
+            host = b'other.example' if key is K['B'] else b'example.com'
+            exs = [exch(b'https://' + host + b'/', 200, T, b'made just now'), exch(b'https://' + host + b'/x', 200, T, rbytes(rng, 40))]
+            jobs.append(dict(b=bundle(ver, b'https://' + host + b'/' if ver == 'b1' else None, None, None, exs), key=key, rs=16, long=dur == 604800, date=now - back, nsec=0, dur=dur))
+    signed = [(b, j) for b, j in zip(sign_compare(ctx, jobs, chain, vurl), jobs) if b]
+    Z = -62135596800          # time.Time{}.Unix()
+    def instants(j):
+        d, x = j['date'], j['date'] + j['dur']
+        return [(Z, 0), (Z, 1), (Z - 1, 999999999), (Z + 1, 0), (Z + 32400, 0), (0, 0), (-1, 0), (1, 0), (d - 1, 0), (d - 1, 999999999), (d, 0), (now, 0), (x, 0), (x, 1), (x + 1, 0), (2**33, 0), (253402300800, 0)]
+    verify_stage(ctx, [(b, t) for b, j in signed for t in instants(j)])
+    wr, _ = ctx.both([f'bundle.write {b}' for b, j in signed])
+    files = [(r.split(' ')[1], j) for r, (b, j) in zip(wr, signed) if r and r.startswith('ok ')]
+    g, m = read_stage(ctx, [f for f, j in files])
+    back_ = [(x[3:], j) for x, (f, j) in zip(g, files) if x and x.startswith('ok ')]
+    verify_stage(ctx, [(b, t) for b, j in back_ for t in instants(j)[:1] + instants(j)[8:13]])
 
 
 def run(ctx):
@@ -219,6 +295,8 @@ def run(ctx):
         ops.append(f'bsig.subset {hexs(rng.choice([vurl, b"", b"https://example.com/" + b"v" * 30]))}|{hexs(rbytes(rng, rng.choice([0, 32])))}|{d}|{d + rng.choice([0, 3600, -1])}|{",".join(hs) or "."}')
         ops.append(f'bsig.msg {hexs(rbytes(rng, rng.randrange(0, 40)))} {rng.choice(["b1", "b2"])}')
     ctx.both(ops)
+
+    r10_stage(ctx, rng, chain, dict(A=kA, A2=kA2, B=kB), vurl)
 
     # the real sign-bundle binary (its signing loop is not the library's): refuse, or write something that verifies completely
     import c20
